@@ -214,6 +214,59 @@ Proof.
         -- specialize (Hact p0 (or_introl eq_refl)). lia.
 Qed.
 
+(* every pending match is emitted *)
+Lemma retok_emits : forall ps (m : list tok), incr ps -> state_ok ps m ->
+  forall t, In t m -> pending ps t -> tstart t <= tend t -> In t (retok O ps m).
+Proof.
+  induction ps as [|p ps IH]; intros m Hi Hs t Ht [a [Ha Ea]] Hwf; [destruct Ha|].
+  pose proof (state_ok_drop _ _ (pstart p) Hs) as Hs'.
+  destruct (drop_ended_spec m (pstart p)) as [pre [Epre [Hended Hlive]]].
+  assert (Ht' : In t (drop_ended m (pstart p))).
+  { rewrite Epre in Ht. apply in_app_or in Ht as [Ht|Ht]; [|exact Ht]. exfalso. specialize (Hended t Ht).
+    destruct Hi as [Hp [Hlt _]]. destruct Ha as [<-|Ha]; [lia | specialize (Hlt a Ha); lia]. }
+  cbn [retok]. remember (drop_ended m (pstart p)) as m' eqn:Em. clear Em Epre Hended.
+  pose proof (state_ok_step p ps m' Hi Hs' Hlive) as Hn.
+  pose proof Hi as Hi0. destruct Hi as [Hp [Hlt Hi]].
+  destruct m' as [|h rest]; [destruct Ht'|].
+  (* unless t is emitted here, it is still pending for the remaining pieces *)
+  assert (Hlater : tstart t <> pstart p -> In t (retok O ps (h :: rest))).
+  { intro Hne. apply IH; [exact Hi | exact Hn | exact Ht' | | exact Hwf].
+    destruct Ha as [<-|Ha]; [contradiction | exists a; split; assumption]. }
+  destruct Ht' as [->|Hrest].
+  - (* t is the head *)
+    destruct (Z.eq_dec (tstart t) (pstart p)) as [E|Hne].
+    + replace (tstart t <=? pstart p) with true by lia. replace (tstart t =? pstart p) with true by lia. left; reflexivity.
+    + assert (Hgt : pstart p < tstart t).
+      { destruct Ha as [<-|Ha]; [contradiction | specialize (Hlt a Ha); lia]. }
+      replace (tstart t <=? pstart p) with false by lia.
+      destruct (is_word_piece O p); [right|]; apply Hlater; exact Hne.
+  - (* t is behind the head: it starts after the head ends, which is at or after this piece *)
+    assert (Hne : tstart t <> pstart p).
+    { destruct Hs' as [[Haft _] _]. specialize (Haft t Hrest). unfold is_after in Haft. simpl in Hlive. lia. }
+    destruct (tstart h <=? pstart p); [destruct (tstart h =? pstart p); [right|]; apply Hlater; exact Hne|].
+    destruct (is_word_piece O p); [right|]; apply Hlater; exact Hne.
+Qed.
+
+(* unmatched tokens are made of non-blank pieces only *)
+Lemma retok_from_word : forall ps m (t : tok), In t (retok O ps m) ->
+  In t m \/ exists p, In p ps /\ is_word_piece O p = true /\ t = unmatched p.
+Proof.
+  induction ps as [|p ps IH]; intros m t H; [destruct H|].
+  assert (Hd : forall x, In x (drop_ended m (pstart p)) -> In x m).
+  { intros x Hx. destruct (drop_ended_spec m (pstart p)) as [pre [E _]]. rewrite E. apply in_or_app. right; exact Hx. }
+  assert (Hrec : forall t, In t (retok O ps (drop_ended m (pstart p))) ->
+                 In t m \/ exists q, In q (p :: ps) /\ is_word_piece O q = true /\ t = unmatched q).
+  { intros t0 H0. apply IH in H0 as [H0|[q [Hq E]]]; [left; apply Hd; exact H0 | right; exists q; split; [right; exact Hq | exact E]]. }
+  cbn [retok] in H. destruct (drop_ended m (pstart p)) as [|y m'] eqn:E.
+  - destruct (is_word_piece O p) eqn:Ew; [|apply Hrec; exact H].
+    destruct H as [<-|H]; [right; exists p; split; [left; reflexivity | split; [exact Ew | reflexivity]] | apply Hrec; exact H].
+  - destruct (tstart y <=? pstart p).
+    + destruct (tstart y =? pstart p); [|apply Hrec; exact H].
+      destruct H as [<-|H]; [left; apply Hd; left; reflexivity | apply Hrec; exact H].
+    + destruct (is_word_piece O p) eqn:Ew; [|apply Hrec; exact H].
+      destruct H as [<-|H]; [right; exists p; split; [left; reflexivity | split; [exact Ew | reflexivity]] | apply Hrec; exact H].
+Qed.
+
 (* every emitted token starts and ends on a piece boundary *)
 Definition on_boundaries (t : tok) : Prop :=
   exists a b, In a P /\ In b P /\ tstart t = pstart a /\ tend t = pend b.
@@ -318,6 +371,15 @@ Proof.
     assert (Ht : In t (filter_overlapping (t_iter O tr text))) by (rewrite Em; left; reflexivity).
     apply fo_sub in Ht. destruct (match_on_pieces t Ht) as [a [_ [Hain [_ [Ea _]]]]].
     specialize (Ha a Hain). lia.
+Qed.
+
+(* C17: every match kept by the overlap filter is a token of the result *)
+Theorem tokenize_keeps_matches (t : tok) : In t (filter_overlapping (t_iter O tr text)) -> In t (t_tokenize O tr text).
+Proof.
+  intro Ht. unfold t_tokenize. pose proof Ht as Ht0. apply fo_sub in Ht0.
+  destruct (match_on_pieces t Ht0) as [a [_ [Ha [_ [Ea _]]]]].
+  apply (retok_emits O P P _ pieces_incr initial_state_ok t Ht); [exists a; split; assumption|].
+  exact (proj2 (proj2 (proj2 (match_inside O tr W text t Ht0)))).
 Qed.
 
 (* two pieces of the text that share a position are the same piece *)
